@@ -15,6 +15,8 @@ def make_other(kind, a, md):
         oids, sids = list(a.obs_ids)[::-1], ['c1', 'c2']
     elif kind == 'concat:observation':
         oids, sids = ['c1', 'c2'], list(a.samp_ids)[::-1]
+    elif kind == 'align_to-already-aligned':
+        oids, sids = list(a.obs_ids), list(a.samp_ids)
     else:
         oids, sids = list(a.obs_ids)[::-1], list(a.samp_ids)[::-1]
     nr, nc = len(oids), len(sids)
